@@ -241,6 +241,18 @@ def bounded_join(ctx, fn, bb):
     return 'every handle pushed for joining was seen is_finished() == true (%d push site(s))' % len(pushes)
 
 
+def join_unknown(ctx, fn):
+    """A join that bounded_join cannot prove, but whose handle plausibly went through an is_finished() filter: some function that tests
+    is_finished() reaches the joining function (the filter sits in a closure or in another helper).  Such a site is reported undecided."""
+    g = cg(ctx)
+    for f2 in ctx.F.crate_fns():
+        if any((t['func'].get('fn') or '').endswith('::is_finished') for bb, t in f2.calls()):
+            top = f2.root or f2.name
+            if fn.name == top or fn.name in g.reachable(top):
+                return 'an is_finished() test in %s may guard this join, but the data flow from the test to the joined handle is not of the recognised shape' % short(f2.name)
+    return None
+
+
 def bl(ctx):
     """No blocking call and no foreign code (jobs, user closures, wakers, user futures/streams) while an internal lock is held."""
     g = cg(ctx)
@@ -287,6 +299,11 @@ def bl(ctx):
             if r:
                 counts['block'] += 1
                 out.append(ok('BL', '%s|bounded-join' % short(fn.name), 'not a blocking site: ' + r, loc=s.loc, fn=fn.name))
+                continue
+            u = join_unknown(ctx, fn)
+            if u:
+                counts['block'] += 1
+                out.append(undecided('BL', '%s|bounded-join' % short(fn.name), u))
                 continue
         check(fn, s.bb, 'block', what, s.loc)
     for fn in F.crate_fns():
